@@ -241,6 +241,14 @@ fn check_strings(st: &Style, first: u8, thorough: bool, acc: &mut Acc) {
                     } else {
                         acc.count("truncated_rejected", 1);
                     }
+                } else if st.name == "tlv" && (b[0] == 0x80 || b[0] >= 0x83) {
+                    // lead bytes that announce no length of this style (indefinite form, length of
+                    // three and more bytes): not a prefix, must be refused
+                    if let Ok(r) = res {
+                        acc.violation(viol(key, format!("{}::deserialize({}) = Ok({r:?}): the lead byte {:02x} announces no length of this style, expected an error", st.name, hex(b), b[0]), 1000));
+                    } else {
+                        acc.count("unsupported_lead_rejected", 1);
+                    }
                 } else if let Ok((_, rest)) = res {
                     // outside the defined prefixes only memory safety is demanded: the remainder
                     // must lie inside the input
